@@ -60,6 +60,10 @@ uint64_t gen_double_bits(Src& s) {
                                    0x000fffffffffffffull, 0x3ff0000000000000ull, 0x3fefffffffffffffull,
                                    0x3ff0000000000001ull, 0x4340000000000000ull, 0x433fffffffffffffull,
                                    0x7fe0000000000000ull, 0x0020000000000000ull};
+      if (s.coin(1, 5)) {  // the longest spellings a serializer can produce: 17 digits just above the positional/scientific switch
+        static const double longest[] = {-1.2345678901234567e-06, -9.8765432109876543e-06, -1.0000000000000002e-06, -1.7976931348623157e-06};
+        return dbits(longest[s.index(4)]);
+      }
       return v[s.index(sizeof v / sizeof v[0])] | (s.coin(1, 4) ? (1ull << 63) : 0);
     }
     case 5: return s.coin(1, 2) ? 0ull : (1ull << 63);  // +-0
